@@ -19,7 +19,7 @@ func init() {
 		Rule: "passwords of 1..200 printable bytes (letters, digits, spaces, '%' verbs, leading ':', quotes) are configured on clients with and without capability negotiation, SASL and tracking; sessions: successful registration plus traffic, " +
 			"dial refused, first write failing, EOF during registration, and a reconnect; a capturing logging.Logger receives every record of every level; the password must not occur in any record's formatted text or in any argument, " +
 			"and when a PASS line reached the wire a masked '-> PASS **************' record must exist. Plus flood-protected sessions that reconnect right after a burst, so that the PASS line itself is held back by the penalty. Every scenario is also run with an empty password: a password that occurs in that control log is trivial and skipped (counted). " +
-			"Sessions also include connections ended (reset, Close) while registration lines are still queued behind a stalled write, and clients built from configurations lacking a nick or ident (never connected). Also: the password handed to ConnectTo, welcome-and-drop before a reconnect, welcomes under another nick. Also Pass() called while disconnected before the next connect. distinct_nontrivial = distinct (password class, session kind, negotiation, sasl, tracking) cells among judged cases.",
+			"Sessions also include connections ended (reset, Close) while registration lines are still queued behind a stalled write, and clients built from configurations lacking a nick or ident (never connected). Also: the password handed to ConnectTo, welcome-and-drop before a reconnect, welcomes under another nick. Also Pass() called while disconnected before the next connect. Half of the sessions belong to an application whose own handlers panic on REGISTER, CONNECTED, DISCONNECTED, 001, NOTICE and CAP in both handler sets (default recovery function). distinct_nontrivial = distinct (password class, session kind, negotiation, sasl, tracking) cells among judged cases.",
 		Assumptions: []string{"the SASL secret is a different secret and not the subject of this property"},
 		Plan: func(tier string, seed int64) []Batch {
 			n := 6
